@@ -14,7 +14,7 @@ from .common import FIELD
 from .c01 import each, _single_return
 
 FLOOR = 17
-CLOSURE_ROOTS = ['field.Field.diff', 'field.Field.pad', 'operators._split_diff_combine', 'operators._1d_diff']   # the four operators are sums / stacks of Field.diff: the derivative pipeline is theirs (sa/shared.py)
+CLOSURE_ROOTS = ['field.Field.diff', 'field.Field.pad', 'operators._split_diff_combine', 'operators._1d_diff', 'field.Field.rotate90']   # the four operators are sums / stacks of Field.diff: the derivative pipeline is theirs; the statement speaks about quarter-turn rotations of the field (sa/shared.py)
 ANCHORS = [
     'field.Field.grad',
     'field.Field.div',
